@@ -75,7 +75,8 @@ def simple_plan(rng, n, waits=True, subset=None):
 def base(rng, n_lo=1, n_hi=6, **kw):
     n = rng.randint(n_lo, n_hi)
     return {"tasks": gen_dag(rng, n, **kw), "tokens": [], "procs": [], "jobfaults": [],
-            "cfg": {"set_order": True, "trace": False, "preempt": 0, "pid_reuse": False}}
+            "cfg": {"set_order": True, "trace": False, "preempt": 0, "pid_reuse": False,
+                    "body_len": rng.choice([1, 1, 1, 2, 4, 10])}}
 
 
 def maybe_trace(rng, scn, p=0.4):
@@ -231,7 +232,15 @@ def gen_C09(rng, tier):
     return scn
 
 
+CRASH_FUNCS = ["aio_run", "aio_run", "aio_start", "aio_start", "aio_submit", "prepare", "write", "create", "acquire", "release",
+               "_update", "__enter__", "__exit__", "start", "aio_process", "submit", "dependencychanged"]
+
+
 def crash_spec(rng, sigs=("KILL", "TERM", "INT")):
+    r = rng.random()
+    if r < 0.3:
+        # the k-th traced line executed inside one of the functions where durable state changes
+        return {"sig": rng.choice(sigs), "trigger": {"func": rng.choice(CRASH_FUNCS), "k": rng.randint(1, 28)}}
     r = rng.random()
     if r < 0.3:
         trig = {"step": rng.randint(1, 160)}
@@ -246,6 +255,8 @@ def crash_spec(rng, sigs=("KILL", "TERM", "INT")):
 def gen_C11(rng, tier):
     scn = base(rng, 1, 5, p_dep=0.7)
     n = len(scn["tasks"])
+    # long bodies: a restart should usually find jobs of the killed run still running
+    scn["cfg"]["body_len"] = rng.choice([1, 4, 12, 30, 60])
     if rng.random() < 0.35:
         add_tokens(rng, scn, kinds=("file",), max_tokens=1)
     if rng.random() < 0.15:
